@@ -202,8 +202,8 @@ func checkQuote(e *env, v rt.Value, sigClass string, nontrivial bool) {
 	if nontrivial {
 		c.NonTrivial(vp.Hash("q", want))
 	}
-	if c.WantSample() && nontrivial && len(q) > 6 && len(fs) == 0 {
-		c.Sample(map[string]interface{}{"value": showRT(v), "%q": q, "loads_back_as": showRT(back)})
+	if e.wantSample(2) && nontrivial && len(q) > 6 && len(fs) == 0 {
+		e.sample(map[string]interface{}{"value": showRT(v), "%q": q, "loads_back_as": showRT(back)})
 	}
 	e.hookReports(in)
 }
@@ -360,7 +360,7 @@ func runQuote(c *vp.Child) {
 	}
 	// (3) PRNG
 	r := c.Rand("quote")
-	n := c.Pick(30000, 1200000) / c.NB
+	n := c.Pick(80000, 1000000) / c.NB
 	for i := 0; i < n; i++ {
 		switch r.Intn(3) {
 		case 0:
@@ -449,8 +449,8 @@ func checkTostring(e *env, v rt.Value) {
 	} else {
 		c.Feature("tostring-float-over-14-digits-lossy-not-judged", 1)
 	}
-	if c.WantSample() && fits14Digits(f) && f != math.Trunc(f) {
-		c.Sample(map[string]interface{}{"number": showRT(v), "tostring": s, "tonumber": showRT(rets[1])})
+	if e.wantSample(1) && fits14Digits(f) && f != math.Trunc(f) {
+		e.sample(map[string]interface{}{"number": showRT(v), "tostring": s, "tonumber": showRT(rets[1])})
 	}
 	e.hookReports(in)
 }
@@ -478,7 +478,7 @@ func runTostring(c *vp.Child) {
 		}
 	}
 	r := c.Rand("tostring")
-	n := c.Pick(40000, 1600000) / c.NB
+	n := c.Pick(120000, 1500000) / c.NB
 	for i := 0; i < n; i++ {
 		if r.Intn(2) == 0 {
 			checkTostring(e, rt.IntValue(randInt64(r)))
